@@ -1571,7 +1571,8 @@ def hostile_raw(r, idx):
     n = 10
     menu = CORRUPT_MENU + ["corrupt:0:128", "corrupt:1:1", "corrupt:2:1", "corrupt:4:7", "corrupt:5:255", "corrupt:6:3",
                            "corrupt:14:200", "corrupt:15:9", "corrupt:22:77", "trunc:0", "trunc:2", "trunc:6", "trunc:7",
-                           "trunc:15", "trunc:16", "trunc:23", "trunc:24", "trunc:30", "ext:1200", "dup:0"]
+                           "trunc:15", "trunc:16", "trunc:23", "trunc:24", "trunc:30", "ext:1200", "dup:0"] \
+        + ["trunc:%d" % k for k in range(17, 36)]    # around header + packet number + header protection sample
     cfg["fates_c2s"] = [r.choice(menu) if r.random() < 0.6 else "ok" for _ in range(n)]
     cfg["fates_s2c"] = [r.choice(menu) if r.random() < 0.6 else "ok" for _ in range(n)]
     steps = [{"do": "connect", "n": 1}, {"do": "connect", "n": 2}]
@@ -1585,6 +1586,14 @@ def hostile_raw(r, idx):
             hdr = bytes([0xc0 | r.randrange(64)]) + r.choice([b"\x00\x00\x00\x01", b"\x00\x00\x00\x00", b"\xff\x00\x00\x1d", b"\x0a\x1a\x2a\x3a"]) \
                 + bytes([r.choice([0, 1, 8, 20, 21, 255])])
             data = (hdr + data)[:max(ln, len(hdr))]
+        if r.random() < 0.25:
+            # a well-formed Initial header whose Length field says the packet is only a few bytes long,
+            # inside a datagram padded to full size: the header protection sample has to fit the PACKET
+            ln2 = r.randrange(0, 40)
+            dcid = bytes(r.randrange(256) for _ in range(r.choice([8, 8, 20])))
+            data = bytes([0xc0 | r.randrange(4)]) + b"\x00\x00\x00\x01" + bytes([len(dcid)]) + dcid + b"\x00\x00" + bytes([ln2]) \
+                + bytes(r.randrange(256) for _ in range(ln2))
+            data = data + bytes(max(0, r.choice([len(data), 1200]) - len(data)))
         steps.append({"do": "raw", "to": r.choice([0, 0, 1]), "hex": data.hex()})
         if r.random() < 0.3:
             steps.append({"do": "run", "us": r.choice([0, 1000, 30000])})
